@@ -157,8 +157,11 @@ pub fn profile_for(id: &str, rng: &mut Rng) -> Profile {
             if rng.chance(40) {
                 // wide variant: several leaves of uniform ~0.5 KiB rows, so that VACUUM empties and merges pages
                 // (one table, no UPDATE: cells of this size must stay uniform, open findings D31e / D31b)
-                p.max_tables = 1;
-                p.w_ddl = 0;
+                // (half of them with a second table and DROP TABLE: a dropped tree of several levels must be
+                // released whole)
+                let drops = rng.chance(50);
+                p.max_tables = if drops { 2 } else { 1 };
+                p.w_ddl = if drops { 5 } else { 0 };
                 p.updates = false;
                 p.text_cols = true;
                 p.pad_text = 450;
@@ -196,6 +199,22 @@ pub fn profile_for(id: &str, rng: &mut Rng) -> Profile {
             p.w_reopen = *rng.pick(&[0, 4]);
             p.w_flush = *rng.pick(&[0, 4]);
             p.constraints = rng.chance(40);
+            if rng.chance(33) {
+                // trees of several pages (uniform ~0.5 KiB rows) that are dropped - in committed and in
+                // rolled-back transactions - and released by VACUUM: every page of every level must reach
+                // the free list (seeded change vacuum-dropped-tree-right-subtree-leak leaks the right-most
+                // subtree of each interior page, which a one-page table does not have)
+                p.text_cols = true;
+                p.pad_text = 450;
+                p.updates = false;
+                p.constraints = false;
+                p.max_tables = 2;
+                p.w_ddl = 8;
+                p.w_vacuum = 6;
+                p.w_auto = 60;
+                p.min_events = 40;
+                p.max_events = rng.range(50, 100) as u32;
+            }
         }
         "C15" => {
             p.ddl_rich = true;
@@ -274,6 +293,11 @@ pub fn profile_for(id: &str, rng: &mut Rng) -> Profile {
                 p.w_reopen = *rng.pick(&[0, 4]);
                 p.ddl_rich = rng.chance(60);
                 p.constraints = rng.chance(50);
+            }
+            if rng.chance(25) {
+                // VACUUM inside crash histories: it rewrites pages in place without logging and ends with a
+                // checkpoint; a crash inside it or right after it must leave what was acknowledged
+                p.w_vacuum = 4;
             }
             p.guards.push("crash_after_stolen_page".into()); // S1 (fault-space guard)
             p.guards.push("checkpoint_with_open_txn".into()); // F4
